@@ -227,6 +227,15 @@ func init() {
 			}
 			return setBig(a[0], bigv{c: new(big.Int).Sqrt(x.c)})
 		},
+		B + "Bit": func(fr *frame, a []value) value {
+			x := getBig(a[0])
+			n := int(fr.i.idx(a[1]))
+			if x.c != nil {
+				return x.c.Bit(n)
+			}
+			C := fr.i.m.C
+			return fr.i.wrapK(C.Mod(C.Div(x.t, C.Const(pow2(n))), C.ConstI(2)), types.Uint)
+		},
 		B + "Lsh": func(fr *frame, a []value) value {
 			x := getBig(a[1])
 			n := uint(fr.i.idx(a[2]))
